@@ -105,6 +105,9 @@ def make_field(cc, node, built, path):
         return cc.LogLevelField(**p, **kw)
     if fam == "appmode":
         return cc.ApplicationModeField(**p, **kw)
+    if fam in ("int", "float") and p.pop("base_class", False):
+        # the exported base class used directly (what IntField / FloatField do themselves)
+        return cc.NumberField(int if fam == "int" else float, **p, **kw)
     if fam == "int":
         return cc.IntField(**p, **kw)
     if fam == "float":
@@ -237,8 +240,15 @@ def _make_type(cc, node, built, path):
     if "env" in node["schema"]:
         kw["env"] = node["schema"]["env"]
     sub = cc.Schema(dynamic=node["schema"].get("dynamic", False), **kw)
-    _fill(cc, sub, node["schema"], built, path)
+    schema_node, late = node["schema"], ()
+    if node.get("late_validators") and schema_node.get("validators"):
+        # the validators of the type's schema are registered only after the type has been made
+        schema_node = dict(schema_node)
+        late = schema_node.pop("validators")
+    _fill(cc, sub, schema_node, built, path)
     cls = cc.make_type(sub, name, module="vf_types", key_filename=node.get("key_filename"))
+    for vspec in late:
+        cc.validator(sub)(_schema_validator(built, path, vspec))
     built.types[key] = cls
     built.types[name] = cls
     return cls
@@ -284,6 +294,8 @@ def _fill(cc, schema, node, built, prefix, via=""):
     def put(key, value):
         if via:
             schema[via + "." + key] = value
+        elif key.startswith("_"):
+            schema[key] = value  # (attribute assignment of a name with a leading underscore sets a private attribute)
         else:
             setattr(schema, key, value)
 
@@ -310,8 +322,8 @@ def _fill(cc, schema, node, built, prefix, via=""):
                 _use_standalone(cc, sub)
                 put(key, sub)
                 continue
-            if style == "auto" and hasattr(type(here()), key):
-                style = "getitem"  # attribute access would find the method of that name
+            if style == "auto" and (hasattr(type(here()), key) or key.startswith("_")):
+                style = "getitem"  # attribute access would find the method of that name / treats the name as private
             if style == "auto":
                 sub = getattr(here(), key)
             elif style in ("getitem", "dotted"):
